@@ -1248,19 +1248,20 @@ class Unit:
     @lru_cache(maxsize=None)
     def as_ratio(self) -> Tuple["Unit", "Unit"]:
         """Returns this unit, split into a numerator and denominator"""
-        numerator, denominator = self.dimension.as_ratio()
+        numerator = {u: e for u, e in self.factors.items() if e >= 0} or {One: 1}
+        denominator = {u: -e for u, e in self.factors.items() if e < 0} or {One: 1}
         return (
-            Unit(
-                self.prefix,
-                {u: e for u, e in self.factors.items() if e >= 0} or {One: 1},
-                numerator,
-            ),
-            Unit(
-                IdentityPrefix,
-                {u: -e for u, e in self.factors.items() if e < 0} or {One: 1},
-                denominator,
-            ),
+            Unit(self.prefix, numerator, Unit._dimension_of(numerator)),
+            Unit(IdentityPrefix, denominator, Unit._dimension_of(denominator)),
         )
+
+    @staticmethod
+    def _dimension_of(factors: Mapping["Unit", int]) -> Dimension:
+        """The product of the dimensions of the given factors"""
+        dimension = Number
+        for unit, exponent in factors.items():
+            dimension = dimension * unit.dimension**exponent
+        return dimension
 
 
 @total_ordering
